@@ -220,6 +220,10 @@ def _constant_value_of_function(function, bindings):
             return None
         else:
             return values[1] if values[0] else values[2]
+    elif function.function == ir_data.FunctionMapping.PRESENCE:
+        # Whether a field is present does not follow from its value, even when
+        # that value is known (`let k = 2` / `$present(k)`).
+        return None
     # Other than the logical operators and choice operator, the result of any
     # function on an unknown value is, itself, considered unknown.
     if any(value is None for value in values):
